@@ -86,7 +86,7 @@ def lower_group(args):
             cfile = os.path.join(work, '%s.%s.c' % (u['id'], variant))
             with open(cfile, 'w') as f:
                 f.write(txt)
-            meta = {'lines': b.lines_meta, 'target': b.target_cname, 'notes': b.notes,
+            meta = {'lines': b.lines_meta, 'target': b.target_cname, 'notes': b.notes, 'bodies': list(b.ctx.fn_bodies),
                     'fn_mode': dict(b.ctx.fn_mode), 'fn_info': b.ctx.fn_info,
                     'fn_decls': list(b.ctx.fn_decls), 'consts': {k: {'kind': v['kind'], 'concrete': v.get('concrete')} for k, v in b.ctx.consts.items()}}
             out.append((u['id'], variant, cfile, meta, None, txt))
@@ -103,6 +103,7 @@ class _B:
         self.ctx = self
         self.fn_mode = meta['fn_mode']
         self.fn_decls = {k: True for k in meta['fn_decls']}
+        self.fn_bodies_names = meta.get('bodies', [])
 
 
 def verify_job(args):
@@ -129,6 +130,8 @@ def classify(u, meta, res):
         m = lines.get(o.get('line') or -1)
         if m and (o['name'] or '').split('.')[-2:-1] in (['postcondition'], ['precondition']):
             o['clause'] = m['text']; o['tag'] = m.get('tag')
+            if o['tag'] and '#' in o['tag']:
+                o['label'] = o['tag'].split('#', 1)[1]
         if 'loop_invariant' in (o['name'] or '') or 'loop_decreases' in (o['name'] or '') or 'loop_step' in (o['name'] or ''):
             out['loop_obligations'] += 1
         if o['status'] == 'SUCCESS':
@@ -257,7 +260,7 @@ def main():
             rep = {'unit': uid, 'copy': v if not same_text.get(uid) else 'include+development (identical lowered text)',
                    'target': meta['target'], 'times_s': {k: round(x, 2) for k, x in r.get('times', {}).items()},
                    'callees': {k: m for k, m in meta['fn_mode'].items() if k != meta['target']},
-                   'loops': 'loop contracts' if any(c.get('loops') for c in u.get('contracts', {}).values()) else ('unwind %s with unwinding assertions' % u['unwind'] if u.get('unwind') else 'loop-free'),
+                   'loops': 'loop contracts' if any(c.get('loops') for nn, c in u.get('contracts', {}).items() if nn in meta.get('bodies', [])) else ('unwind %s with unwinding assertions' % u['unwind'] if u.get('unwind') else 'loop-free'),
                    'notes': meta['notes'], 'back_end': 'cbmc 6.11 SAT (%s)' % (u.get('sat_solver') or 'minisat2 default')}
             fi = meta['fn_info'].get(meta['target'], {})
             fns_under_contract[meta['target']] = '%s::%s [%s:%s]' % (fi.get('owner'), fi.get('name'), os.path.basename(str(fi.get('file'))), fi.get('line'))
@@ -268,7 +271,7 @@ def main():
                 continue
             c = classify(u, meta, r)
             rep['obligations'] = c['n']; rep['discharged'] = c['discharged']; rep['canary_fails_as_required'] = c['canary_ok']
-            has_loops = any(cc.get('loops') for cc in u.get('contracts', {}).values())
+            has_loops = any(cc.get('loops') for nn, cc in u.get('contracts', {}).items() if nn in meta.get('bodies', []))
             if not c['canary_ok']:
                 undecided.append((uid, v, 'vacuity: the reachability canary did not fail (contradictory requires / unsatisfiable callee contract)'))
                 rep['status'] = 'undecided'
@@ -279,13 +282,27 @@ def main():
                 undecided.append((uid, v, 'loop contract silently dropped (no loop_invariant obligations)'))
                 rep['status'] = 'undecided'
             else:
-                total_n += c['n']; total_ok += c['discharged']
+                # obligations attributed to other properties only (tagged clauses) and recorded known findings are not
+                # part of this property's proof obligations
+                foreign = 0
+                for o in c['failed']:
+                    tprops = [t for t in (o.get('tag') or '').split('#')[0].split(',') if t]
+                    is_known = o.get('label') and any(k.startswith('known:') and ('property=%s ' % prop) in k and ('unit=%s ' % uid) in k and ('label=%s ' % o['label']) in k + ' ' for k in known)
+                    if (tprops and prop not in tprops and prop != 'C18') or is_known:
+                        foreign += 1
+                total_n += c['n'] - foreign; total_ok += c['discharged']
                 rep['status'] = 'ok' if not c['failed'] else 'failed'
             for o in c['failed']:
+                # a clause tagged with properties is that properties' obligation; untagged obligations (frames, safety,
+                # invariants, callee preconditions) belong to every property the unit serves
+                tprops = [t for t in (o.get('tag') or '').split('#')[0].split(',') if t]
+                if tprops and prop not in tprops and prop != 'C18':
+                    continue
                 srcref, ctext = src_of_line(cfile, o.get('line') or 0)
                 key = 'property=%s unit=%s obligation=%s' % (prop, uid, o['name'])
-                kf = [k for k in known if k.startswith('known:') and ('property=%s ' % prop) in k and ('unit=%s ' % uid) in k and ('obligation=%s' % o['name']) in k.replace(' ', ' ')]
-                entry = {'unit': uid, 'copy': v, 'obligation': o['name'], 'description': o['description'], 'clause': o.get('clause'),
+                # a known finding is identified by the unit and the *label* of the failed clause (stable under reordering)
+                kf = [k for k in known if k.startswith('known:') and ('property=%s ' % prop) in k and ('unit=%s ' % uid) in k and o.get('label') and ('label=%s ' % o['label']) in k + ' ']
+                entry = {'unit': uid, 'copy': v, 'label': o.get('label'), 'obligation': o['name'], 'description': o['description'], 'clause': o.get('clause'),
                          'gen_line': o.get('line'), 'repo_src': srcref, 'c_text': ctext, 'trace': o.get('trace')}
                 if kf:
                     known_hits.append((kf[0], entry))
